@@ -555,3 +555,10 @@ MUTANTS = [
 # SESSION7 additions to the claim (clauses added in DESIGN section 12)
 CLAIM['technique'] += '; fixed-size array extents (R4.array-extent: transfers, subscripts and helper summaries against sizeof(array), linear values + Fourier-Motzkin, field value sets as bounds, local pointers into arrays followed)'
 CLAIM['text'] += ' C03-j: every transfer to or from a fixed-size array (local, static, file scope), every subscript and every helper that touches bytes behind a pointer parameter stays inside the array on all paths.'
+
+MUTANTS += [
+    {'id': 'm03j', 'desc': 'zero block shorter than the writes from it (seeded c17r7)', 'file': 'src/lib/dl/dl.c',
+     'old': """    char buf[BUF_SIZE] = {0};
+    size_t to_read = tgt_idx->comp_length;""", 'new': """    char buf[4096] = {0};
+    size_t to_read = tgt_idx->comp_length;""", 'expect': 'R4.array-extent zero_chunk'},
+]
